@@ -374,6 +374,9 @@ CHOICE_encode_oer(const asn_TYPE_descriptor_t *td,
                                memb_ptr, cb, app_key);
         if(encoded < 0) ASN__ENCODE_FAILED;
         er.encoded = tag_len + encoded;
+    } else if(!elm->type->op->oer_encoder) {
+        ASN_DEBUG("OER encoder is not defined for type %s", elm->type->name);
+        ASN__ENCODE_FAILED;
     } else {
         er = elm->type->op->oer_encoder(
             elm->type, elm->encoding_constraints.oer_constraints, memb_ptr, cb,
